@@ -10,7 +10,7 @@
    FunctionalExtensionality.functional_extensionality_dep) through Flocq. *)
 From Coq Require Import ZArith Reals List Bool.
 From Flocq Require Import Core.Core IEEE754.BinarySingleNaN.
-From GV Require Import Base.W64 Base.F64 Num.Model Num.Spec Num.IntProofs Num.MixedCmp Num.CmpOrder Num.ConvProofs Num.StrSpec Num.StrModel Num.StrProofs Num.ModProofs Num.BitStr.
+From GV Require Import Base.W64 Base.F64 Num.Model Num.Spec Num.IntProofs Num.MixedCmp Num.CmpOrder Num.ConvProofs Num.StrSpec Num.StrModel Num.StrProofs Num.ModProofs Num.BitStr Num.BitProofs Num.ModRows.
 Open Scope Z_scope.
 
 (* ---- integer arithmetic wraps around modulo 2^64 ---- *)
@@ -250,3 +250,72 @@ Print Assumptions C02_bitop_val_refuted.
 Theorem C02_bitop_val_partial : forall f a b, bitstr_defect a b = false -> bitop_val_im f a b = bitop_val_s f a b.
 Proof. exact bitop_val_partial. Qed.
 Print Assumptions C02_bitop_val_partial.
+
+(* ---- round 8: bitwise operators against the manual's "operate on the 64-bit two's-complement patterns".
+   pat_and/or/xor/not/shl/shr (Num/BitProofs.v) are written on the unsigned pattern u64 a = a mod 2^64 and
+   converted back with wrap64; the IM uses Z.land/... on the signed value and Go's uint64 shifts. ---- *)
+Theorem C02_bitwise_is_pattern : forall a b, in64 a -> in64 b ->
+  and64 a b = pat_and a b /\ or64 a b = pat_or a b /\ xor64 a b = pat_xor a b /\ not64 a = pat_not a.
+Proof. exact bitwise_is_pattern. Qed.
+Print Assumptions C02_bitwise_is_pattern.
+
+Theorem C02_bitwise_bits : forall a b i, 0 <= i < 64 ->
+  Z.testbit (and64 a b) i = Z.testbit a i && Z.testbit b i /\
+  Z.testbit (or64 a b) i = Z.testbit a i || Z.testbit b i /\
+  Z.testbit (xor64 a b) i = xorb (Z.testbit a i) (Z.testbit b i) /\
+  Z.testbit (not64 a) i = negb (Z.testbit a i).
+Proof. exact bitwise_bits. Qed.
+Print Assumptions C02_bitwise_bits.
+
+(* an int64 is determined by its bits 0..63, so C02_bitwise_bits / C02_shl_bits / C02_shr_bits fix the results *)
+Theorem C02_in64_eq_bits : forall x y, in64 x -> in64 y ->
+  (forall i, 0 <= i < 64 -> Z.testbit x i = Z.testbit y i) -> x = y.
+Proof. exact in64_eq_bits. Qed.
+Print Assumptions C02_in64_eq_bits.
+
+(* << and >> return an int64 whatever the operands *)
+Theorem C02_shift_closed : forall a n, in64 (shl64 a n) /\ in64 (shr64 a n).
+Proof. exact shift_closed. Qed.
+Print Assumptions C02_shift_closed.
+
+(* |n| >= 64 gives 0, otherwise the logical shift of the pattern; a negative displacement shifts the other way *)
+Theorem C02_shift_is_pattern : forall a n, in64 a -> in64 n ->
+  shl64 a n = (if (n <=? -64) || (64 <=? n) then 0 else pat_shl a n) /\
+  shr64 a n = (if (n <=? -64) || (64 <=? n) then 0 else pat_shr a n) /\
+  pat_shl a n = pat_shr a (- n).
+Proof. exact shift_is_pattern. Qed.
+Print Assumptions C02_shift_is_pattern.
+
+(* bit i of a << n is bit i-n of a if 0 <= i-n < 64, else 0 (every displacement, either sign, any size) *)
+Theorem C02_shl_bits : forall a n i, in64 a -> in64 n -> 0 <= i < 64 ->
+  Z.testbit (shl64 a n) i = (0 <=? i - n) && (i - n <? 64) && Z.testbit a (i - n).
+Proof. exact shl_bits. Qed.
+Print Assumptions C02_shl_bits.
+
+(* bit i of a >> n is bit i+n of a if 0 <= i+n < 64, else 0: logical (zero-fill) right shift *)
+Theorem C02_shr_bits : forall a n i, in64 a -> in64 n -> 0 <= i < 64 ->
+  Z.testbit (shr64 a n) i = (0 <=? i + n) && (i + n <? 64) && Z.testbit a (i + n).
+Proof. exact shr_bits. Qed.
+Print Assumptions C02_shr_bits.
+
+Theorem C02_shift_unsigned : forall a n, in64 a -> 0 <= n < 64 ->
+  u64 (shl64 a n) = (u64 a * 2 ^ n) mod 2 ^ 64 /\ u64 (shr64 a n) = u64 a / 2 ^ n.
+Proof. exact shift_unsigned. Qed.
+Print Assumptions C02_shift_unsigned.
+
+Theorem C02_shift_minint : forall a, in64 a -> shl64 a minint = 0 /\ shr64 a minint = 0.
+Proof. exact shift_minint. Qed.
+Print Assumptions C02_shift_minint.
+
+(* ---- round 8: float modulo, the special-case rows of modFloat stated directly on the IM
+   (finite % finite non-zero is C02_mod_float_spec + C02_fmod_floor_value) ---- *)
+Theorem C02_mod_float_rows :
+  (forall y, modFloat fnan y = fnan) /\ (forall x, modFloat x fnan = fnan) /\
+  (forall s y, modFloat (finf s) y = fnan) /\
+  (forall x s, modFloat x (fzero s) = fnan) /\
+  (forall s sy, modFloat (fzero s) (finf sy) = fzero s) /\
+  (forall s sy m e B, modFloat (fzero s) (B754_finite sy m e B) = fzero s) /\
+  (forall s m e B sy, modFloat (B754_finite s m e B) (finf sy) =
+                      if Bool.eqb s sy then B754_finite s m e B else finf sy).
+Proof. exact mod_float_rows. Qed.
+Print Assumptions C02_mod_float_rows.
